@@ -1,6 +1,7 @@
 import SigpyVerif.Model.C05
 import SigpyVerif.Lemmas.Py
 import SigpyVerif.Lemmas.C05
+set_option linter.unusedSimpArgs false
 /-
   C05 — fft/ifft are the centred unitary DFT and mutually inverse.
 
@@ -13,9 +14,11 @@ import SigpyVerif.Lemmas.C05
   inverse (`ifft ∘ fft = id = fft ∘ ifft`, norm preserved, `IFFT = FFTᴴ`, `FFT.N = I`), for
   `norm=None` the `1/n` of `ifftn` undoes `fftn`; Kronecker products of unitaries are unitary
   (several axes; untransformed axes contribute the identity).
+  The N-dimensional statements (n-fold Kronecker product over an arbitrary axes subset, negative axis
+  spellings, centred `oshape` = `F_{N-d} ∘ resize`, and the link from the executable table to the
+  complex matrix) are in `Props/C05Nd.lean`.
   Validated by correspondence rather than proved: that numpy's `fftn/ifftn/roll` satisfy the contract
-  written in `Model/C05.lean`, floating-point rounding, and the n-fold (rather than 2-fold) Kronecker
-  induction over an arbitrary axes list (`entry_separable` gives the step for the executable table).
+  written in `Model/C05.lean`, and floating-point rounding.
 -/
 namespace SigpyVerif.C05
 open SigpyVerif Matrix Finset ComplexConjugate
@@ -38,6 +41,8 @@ theorem normAxis_spec (a nd : Int) (h1 : -nd ≤ a) (h2 : a < nd) :
   have hnd : 0 < nd := by omega
   unfold Gen.normAxis
   rw [pyMod_of_pos _ hnd]
+  -- robust to the spellings `a % ndim`, `(a + ndim) % ndim`, `(ndim + a) % ndim` in the source
+  try simp only [Int.add_emod_right, Int.add_emod_left]
   split_ifs with h
   · have : a % nd = a + nd := by
       rw [← Int.add_emod_right]; exact Int.emod_eq_of_lt (by omega) (by omega)
